@@ -20,7 +20,7 @@ import z3
 
 from pyvc.core import (SV, SBool, SInt, SSeq, Obj, Val, VNone, BoolS, IntS, to_val, to_int, to_bool_term, cls_of, sub, cls_const,
                        class_axioms, Stub, PyRaise, Unsupported, VStr, str_id)
-from pyvc.driver import Ob
+from pyvc.driver import Ob, cover_hyps
 from pyvc.ground import Q
 from pyvc.env import _MISSING
 from pyvc.expr import BoundMethod
@@ -298,7 +298,7 @@ def name_obligations(chk):
         # fixpoint: a typing.* name is not itself in the table
         chk.add(Ob(func, NAME_CLAUSES[2], pid, hy, z3.And(*[z3.Implies(idf(n) == S(g), z3.Not(z3.Or(*[S(t) == S(g2) for g2 in documented])))
                                                            for g, t in documented.items()])))
-    chk.add(Ob(func, "cover", "pre", res[0][0].hyps, z3.BoolVal(True), expect="sat"))
+    chk.add(Ob(func, "cover", "pre", cover_hyps(res), z3.BoolVal(True), expect="sat"))
 
 
 SUB_CLAUSES = ["same-node-kind-with-value-and-slice-visited", "result-is-clean", "a-plain-subscript-is-the-same-tree", "fixpoint"]
@@ -319,7 +319,7 @@ def subscript_obligations(chk):
         chk.add(Ob(func, SUB_CLAUSES[2], pid, hy + [plain(n)], z3.And(valf(r) == valf(n), slicef(r) == slicef(n), ctxf(r) == ctxf(n))))
         # fixpoint: visiting the result visits V(value), V(slice) again, which changes nothing (IH)
         chk.add(Ob(func, SUB_CLAUSES[3], pid, hy, z3.And(V(valf(r)) == valf(r), V(slicef(r)) == slicef(r))))
-    chk.add(Ob(func, "cover", "pre", res[0][0].hyps, z3.BoolVal(True), expect="sat"))
+    chk.add(Ob(func, "cover", "pre", cover_hyps(res), z3.BoolVal(True), expect="sat"))
 
 
 TUP_CLAUSES = ["same-node-kind-with-every-element-visited-in-order", "result-is-clean", "a-plain-tuple-is-the-same-tree", "fixpoint"]
@@ -342,7 +342,7 @@ def tuple_obligations(chk):
         chk.add(Ob(func, TUP_CLAUSES[1], pid, hy + inr, clean(eltf(r, i))))            # clean(Tuple) <=> every element clean
         chk.add(Ob(func, TUP_CLAUSES[2], pid, hy + inr + [plain(n)], z3.And(nelts(r) == nelts(n), eltf(r, i) == eltf(n, i))))
         chk.add(Ob(func, TUP_CLAUSES[3], pid, hy + inr, V(eltf(r, i)) == eltf(r, i)))
-    chk.add(Ob(func, "cover", "pre", res[0][0].hyps, z3.BoolVal(True), expect="sat"))
+    chk.add(Ob(func, "cover", "pre", cover_hyps(res), z3.BoolVal(True), expect="sat"))
 
 
 BIN_CLAUSES = ["a-|-chain-becomes-Union[...]-over-exactly-the-operands-of-the-maximal-chain-each-visited",
@@ -414,7 +414,7 @@ def binop_obligations(chk):
             chk.add(Ob(func, BIN_CLAUSES[2], pid, hy, r == G(n)))
             chk.add(Ob(func, BIN_CLAUSES[3], pid, hy, clean(r)))
             chk.add(Ob(func, BIN_CLAUSES[4], pid, hy, z3.BoolVal(True), {"note": "generic_visit contract (stdlib)"}))
-    chk.add(Ob(func, "cover", "pre", res[0][0].hyps, z3.BoolVal(True), expect="sat"))
+    chk.add(Ob(func, "cover", "pre", cover_hyps(res), z3.BoolVal(True), expect="sat"))
 
 
 def entry_obligations(chk):
